@@ -271,6 +271,7 @@ pub fn cluster_check(property: &str, tier: &str) -> Option<Check> {
         "C03" | "C26" | "C27" | "C28" => Some(membership_check(property, quick)),
         "C10" | "C11" | "C12" => Some(timed_check(property, quick)),
         "C30" | "C32" => Some(liveness_check(property, quick)),
+        "C33" => Some(compaction_check(quick)),
         _ => None,
     }
 }
@@ -702,6 +703,89 @@ fn liveness_check(property: &str, quick: bool) -> Check {
         }
     }
     Check { runs, budget_s: if quick { 50 } else { 1200 } }
+}
+
+/// C33 (cluster part): snapshots, purges and a peer that lags behind the purge boundary.
+/// Timed runs: snapshot-push retries and back-off windows need time to pass.
+fn compaction_check(quick: bool) -> Check {
+    let mut runs = vec![];
+    let mut opts = timed_opts();
+    opts.snapshot_enable = true;
+    opts.retained = 1;
+    opts.cap = 2;
+    let mut menu = Menu::default();
+    menu.timeouts = false;
+    menu.heartbeats = false;
+    menu.max_ticks = if quick { 4 } else { 6 };
+    menu.snapshots = true;
+    menu.max_snapshots = 2;
+    menu.writes = vec![put("a", "1"), put("a", "2"), put("b", "3")];
+    menu.max_writes = 1;
+    menu.vote_answers = vec![VoteAns::Deliver];
+    menu.crashes = vec![CrashMode::Process];
+    menu.stops = true;
+    menu.max_crashes = 1;
+    menu.crash_nodes = vec![1];
+    menu.closure = crate::simkit::menu::Closure::Recover(if quick { 150 } else { 250 });
+    // node 3 is down while leader 1 commits and applies four writes (acknowledged by node 2);
+    // variant A: exploration starts when node 3 returns (snapshot/purge timing is explored);
+    // variant B: the leader has already taken a snapshot and purged its log before node 3 returns
+    let base = |s: &mut crate::prefix::Script| -> bool {
+        let Some(l) = s.run_until_leader() else { return false };
+        if l != 1 {
+            return false;
+        }
+        s.drain_all();
+        s.ev(Event::Crash(3, CrashMode::Process));
+        for v in ["w1", "w2", "w3", "w4"] {
+            s.ev(Event::ClientWrite(1, put("x", v)));
+            s.drain(|l, _| l.from == 1 && l.to == 2);
+        }
+        s.ev(Event::Tick);
+        s.drain(|l, _| l.from == 1 && l.to == 2);
+        s.view(1).map(|v| v.applied >= 5 && v.role == crate::simkit::cluster::RoleKind::Leader).unwrap_or(false)
+    };
+    if let Some(p) = build_prefix(&opts, |s| {
+        if !base(s) {
+            return false;
+        }
+        s.ev(Event::Restart(3));
+        true
+    }) {
+        runs.push(RunSpec {
+            name: "3v-node3-far-behind-snapshot-and-purge-timing-explored".into(),
+            opts: opts.clone(),
+            menu: menu.clone(),
+            prefix: p,
+            max_depth: if quick { 10 } else { 13 },
+            max_devs: if quick { 2 } else { 3 },
+        });
+    }
+    if let Some(p) = build_prefix(&opts, |s| {
+        if !base(s) {
+            return false;
+        }
+        s.ev(Event::Snapshot(1));
+        s.drain(|l, _| l.from == 1 && l.to == 2);
+        // the leader has purged: its log no longer starts at index 1
+        if !s.view(1).map(|v| v.first > 1 || (v.log.is_empty() && v.last_log_id.is_some())).unwrap_or(false) {
+            return false;
+        }
+        s.ev(Event::Restart(3));
+        true
+    }) {
+        let mut m = menu.clone();
+        m.max_snapshots = 1;
+        runs.push(RunSpec {
+            name: "3v-leader-purged-node3-below-the-boundary-returns".into(),
+            opts: opts.clone(),
+            menu: m,
+            prefix: p,
+            max_depth: if quick { 10 } else { 13 },
+            max_devs: if quick { 2 } else { 3 },
+        });
+    }
+    Check { runs, budget_s: if quick { 40 } else { 900 } }
 }
 
 pub fn replay_file(property: &str, path: &str, out: &mut std::fs::File) -> i32 {
